@@ -96,7 +96,7 @@ def main():
         descr[k] = f"{mod}:{line} {fn} [{kind}] {before}  ->  {after}"
         jobs.append((k, mod, src, REL[mod]))
     surv = []
-    with ThreadPoolExecutor(max_workers=12) as ex:
+    with ThreadPoolExecutor(max_workers=6) as ex:
         for idx, res in ex.map(one, jobs):
             fired = [p for p, c in res.items() if c == 1]
             tag = "KILLED by " + fired[0] if fired else ("SURVIVED" + (" (unknown: " + ",".join(p for p, c in res.items() if c == 2) + ")" if any(c == 2 for c in res.values()) else ""))
